@@ -44,6 +44,8 @@ struct Refs<const V: u32> {
     strength: HashMap<i64, u64>,
     heap_bytes: usize,
     satb: bool,
+    /// --concpop: hand out finalizable objects also while concurrent marking is in progress
+    concpop: bool,
     pressure_done: bool,
 }
 
@@ -93,8 +95,20 @@ impl<const V: u32> Refs<V> {
         ev(Obj::new("AddFinalizer").int("id", id31(r)));
     }
 
+    /// Recorded defect (KNOWN_FINDINGS.json, C06): under ConcurrentImmix the finalizer lists are not
+    /// part of the snapshot, an object handed out by get_finalized_object / get_all_finalizers /
+    /// get_finalizers_for while concurrent marking is in progress is reclaimed by the final-mark
+    /// pause although the VM holds it. Ordinary runs do not call these functions inside that
+    /// window; the probe run (--concpop) does.
+    fn handout_allowed(&self) -> bool {
+        !self.satb || self.concpop || !mmtk::verif::concurrent_work_in_progress(mmtk::<V>())
+    }
+
     /// Returns false when nothing was ready.
     fn pop(&mut self, d: &mut Driver<V>, m: usize, slot: Option<usize>) -> bool {
+        if !self.handout_allowed() {
+            return false;
+        }
         match memory_manager::get_finalized_object(mmtk::<V>()) {
             Some(o) => {
                 let r = o.to_raw_address().as_usize();
@@ -117,6 +131,9 @@ impl<const V: u32> Refs<V> {
     }
 
     fn get_all(&mut self, d: &mut Driver<V>, m: usize, nslots: usize) {
+        if !self.handout_allowed() {
+            return;
+        }
         let v = memory_manager::get_all_finalizers(mmtk::<V>());
         ev(Obj::new("GetAllFinalizers").ints("ids", v.iter().map(|o| id31(o.to_raw_address().as_usize()))));
         // keep some of the returned objects (rooted before the next safepoint)
@@ -129,6 +146,9 @@ impl<const V: u32> Refs<V> {
     }
 
     fn get_for(&mut self, d: &mut Driver<V>, m: usize, r: usize) {
+        if !self.handout_allowed() {
+            return;
+        }
         let v = memory_manager::get_finalizers_for(mmtk::<V>(), oref(r));
         let _ = (d, m);
         ev(Obj::new("GetFinalizersFor")
@@ -220,6 +240,7 @@ pub fn refs_mode<const V: u32>(d: &mut Driver<V>, p: &Params, programs: u64, nop
         strength: HashMap::new(),
         heap_bytes: heap_mb << 20,
         satb: d.barrier == BarrierSelector::SATBBarrier,
+        concpop: flag("concpop"),
         pressure_done: false,
     };
     let nmut = p.nmut.max(1);
